@@ -73,7 +73,7 @@ def config_job(cfg):
         if i < len(body):
             parts = body[i].split(":")
             toks, bad = adapt.read_tokens(parts[1] if len(parts) == 2 else "")
-            rec("C09.aligned", len(parts) == 2 and parts[0].split(",") == basis and toks == gates and not bad, i,
+            rec("C09.aligned", len(parts) == 2 and parts[0].split(",") == basis and adapt.circuit_key(toks) == adapt.circuit_key(gates) and not bad, i,
                 f"{n}-{conn}: basis/circuit {i} returned by the API differ from line {i + 1} of the file", {"mub_index": i})
         els = P.group_elements(n, gens)
         rec("C09.diagonal", all(P.conj_circuit(e, gates)[0] == 0 for e in els) and circs[i].num_qubits == n, i,
